@@ -371,6 +371,16 @@ func (c *monC12) After(m *Machine, s *Step) *Violation {
 				c.lastTOTP[who] = "" // a rejected code was recorded as last code: any later code is 'different'
 			}
 		}
+		if kind == "totp" && op.K == "totpremove" && !op.F && m.C.Cfg.OneTimeTOTP && pre.TOTPSecretKey != "" {
+			// the step that disables the factor takes a code too: the one accepted last does not work there either
+			code := strings.TrimSpace(s.Secret)
+			if success && code != "" && c.lastTOTP[who] == code {
+				return violation("C12", "totp-code-accepted-twice:remove", "with replay protection on, the TOTP code %q that %q used last was accepted again by the remove step", s.Secret, who)
+			}
+			if !success && c.lastTOTP[who] == code && code != "" {
+				m.flag("replay-of-spent:totp")
+			}
+		}
 	case "totpconfirm":
 		// the code that confirmed an enrolment counts as that account's last accepted code
 		who := r.UIDBefore()
@@ -418,7 +428,7 @@ func (c *monC12) End(m *Machine) *Violation {
 var kindsC12 = []wk{
 	{"otplogin", 22}, {"otpadd", 10}, {"otpclear", 2}, {"login", 12}, {"totpvalidate", 12}, {"smsvalidate", 12}, {"smsresend", 3},
 	{"regen", 1}, {"newsess", 5}, {"logout", 4}, {"advance", 4}, {"totpremove", 2}, {"smsremove", 2},
-	{"snip:otp", 14}, {"snip:2fa", 8}, {"snip:rec2fa", 10}, {"snip:enrolreplay", 3},
+	{"snip:otp", 14}, {"snip:2fa", 8}, {"snip:rec2fa", 10}, {"snip:enrolreplay", 3}, {"snip:removereplay", 5},
 }
 
 var profC12 = profile{
